@@ -6,5 +6,5 @@ def authServerTable : List Nat := [5, 50, 61]
 def gssSubTable : List Nat := [5, 50, 61, 66]
 def named : List Nat := [1, 2, 3, 4, 5, 6, 7, 20, 21, 30, 31, 32, 33, 34, 40, 41, 50, 51, 52, 53, 60, 61, 63, 64, 65, 66, 80, 81, 82, 90, 91, 92, 93, 94, 95, 96, 97, 98, 99, 100]
 def unnamedRaises : Bool := false
-def gssHandlersBound : Bool := false
+def gssHandlersBound : Bool := true
 end PV.Generated.AuthTables
